@@ -484,6 +484,7 @@ class ICMPGeneric (icmp_base):
 
 class NDRouterSolicitation (icmp_base):
   "Router Solicitation"
+  MIN_LEN = 4
   def _init_ (self):
     self.options = []
 
@@ -517,6 +518,7 @@ class NDRouterSolicitation (icmp_base):
 
 class NDRouterAdvertisement (icmp_base):
   "Router Advertisement"
+  MIN_LEN = 12
   MANAGED_FLAG = 0x80
   OTHER_FLAG = 0x40
 
@@ -588,6 +590,7 @@ class NDRouterAdvertisement (icmp_base):
 
 class NDNeighborSolicitation (icmp_base):
   "Neighbor Solicitation"
+  MIN_LEN = 20
   def __init__ (self, raw=None, prev=None, **kw):
     icmp_base.__init__(self)
     self.prev = prev
@@ -637,6 +640,7 @@ class NDNeighborSolicitation (icmp_base):
 
 class NDNeighborAdvertisement (icmp_base):
   "Neighbor Advertisement"
+  MIN_LEN = 20
 
   ROUTER_FLAG = 0x80
   SOLICITED_FLAG = 0x40
@@ -708,6 +712,7 @@ class NDNeighborAdvertisement (icmp_base):
 
 class TimeExceeded (icmp_base):
   "Time Exceeded Big Message"
+  MIN_LEN = 4
 
   def __init__ (self, raw=None, prev=None, **kw):
     icmp_base.__init__(self)
@@ -747,6 +752,7 @@ class TimeExceeded (icmp_base):
 
 class PacketTooBig (icmp_base):
   "Packet Too Big Message"
+  MIN_LEN = 4
 
   def __init__ (self, raw=None, prev=None, **kw):
     icmp_base.__init__(self)
@@ -995,6 +1001,11 @@ class icmpv6 (packet_base):
     if cls is None:
       #cls = unknown
       self.next = raw[self.MIN_LEN:]
+      return
+
+    if buf_len - self.MIN_LEN < getattr(cls, 'MIN_LEN', 0):
+      self.msg('(icmp parse) warning ICMPv6 message body too short')
+      self.next = raw[self.MIN_LEN:buf_len]
       return
 
     offset,self.next = cls.unpack_new(raw, offset=self.MIN_LEN,
